@@ -67,6 +67,7 @@ package job
 //@   ensures [C09] listed-tasks-never-forgotten: forall k int :: 0 <= k && k < len(rj.Status.Tasks) ==> hasRef(result.Status.Tasks, rj.Status.Tasks[k].Name)
 //@   ensures [C09] present-tasks-listed: forall j int :: 0 <= j && j < len(tasks) ==> hasRef(result.Status.Tasks, jobtasks.taskName(tasks[j]))
 //@   ensures [C11] created-counter-matches-list: result.Status.CreatedTasks == len(result.Status.Tasks)
+//@   ensures clock >= old(clock)
 //@   ensures [C11] running-counter-bounded: 0 <= result.Status.RunningTasks && result.Status.RunningTasks <= len(result.Status.Tasks)
 //@   ensures [C11] cached-job-untouched: *rj == old(*rj)
 
@@ -135,6 +136,7 @@ package job
 //@   ensures [C09] present-task-never-marked-lost: forall j int :: 0 <= j && j < len(tasks) ==>
 //@        (exists i int :: 0 <= i && i < len(result) && result[i].Name == jobtasks.taskName(tasks[j]) && result[i].Status == jobtasks.taskRefOf(tasks[j]).Status)
 //@   ensures [C11] count-covers-present-tasks: len(result) >= len(tasks)
+//@   ensures clock >= old(clock)
 
 // ---- condition.go (C10, C11, C12) ------------------------------------------------------------------------------------------------
 
